@@ -687,4 +687,65 @@ theorem newNode_db {c : Core} (hi : Inv c) {evs : List Ev} {c' : Core} (h : newN
       · exact prelude_db c e he
       · exact replayBlocks_db hi0 hr e he
 
+/-! ### the case table is exhaustive for every input -/
+
+theorem replayLoop_not_uncovered (c : Core) : ∀ fuel i last cur first,
+    replayLoop c fuel i last cur first ≠ .error .uncovered := by
+  intro fuel
+  induction fuel with
+  | zero => intro i last cur first h; simp [replayLoop] at h
+  | succ n ih =>
+    intro i last cur first h
+    unfold replayLoop at h
+    split at h
+    · cases h
+    · split at h
+      · cases h
+      · split at h
+        · cases h
+        · dsimp only at h
+          split at h
+          · rename_i e he
+            cases h
+            exact ih _ _ _ _ he
+          · cases h
+
+theorem replayLast_not_uncovered (c : Core) (a b : Nat) (m : Bool) :
+    replayLast c a b m ≠ .error .uncovered := by
+  intro h
+  unfold replayLast at h
+  dsimp only at h
+  split at h
+  · cases h
+  · split at h
+    · cases h
+    · split at h <;> cases h
+
+/-- the `panic("uncovered case!")` at the end of `ReplayBlocks` is dead code: for EVERY triple of
+heights and every content of the databases the case analysis above it is exhaustive -/
+theorem replayBlocks_not_uncovered (c : Core) : replayBlocksEvs c ≠ .error .uncovered := by
+  intro h
+  unfold replayBlocksEvs at h
+  dsimp only at h
+  repeat' split at h
+  all_goals first
+    | (cases h; done)
+    | (cases h; rename_i he; first
+        | exact replayLoop_not_uncovered _ _ _ _ _ _ he
+        | exact replayLast_not_uncovered _ _ _ _ he)
+    | (simp only [Core.store] at *; omega)
+
+theorem newNode_not_uncovered (c : Core) : newNode c ≠ .error .uncovered := by
+  intro h
+  unfold newNode handshakeEvs at h
+  dsimp only at h
+  cases hr : replayBlocksEvs (applyAllCore c (preludeEvs c)) with
+  | error e =>
+    simp only [hr] at h
+    cases h
+    exact replayBlocks_not_uncovered _ hr
+  | ok evs =>
+    simp only [hr] at h
+    split at h <;> cases h
+
 end GnoVerif.C33
